@@ -13,7 +13,7 @@ use serde_json::{json, Value};
 use std::collections::BTreeMap;
 
 /// Accumulator of one enumeration.
-#[derive(Default)]
+#[derive(Default, serde::Serialize, serde::Deserialize)]
 pub struct Acc {
     pub evaluations: u64,
     pub nontrivial: u64,
@@ -90,6 +90,45 @@ pub fn par_cases(total: usize, f: impl Fn(usize, &mut Acc) + Sync) -> Acc {
         if let Some(a) = o.into_inner().unwrap() {
             all.merge(a);
         }
+    }
+    all
+}
+
+/// The same, with the index space cut into `slices` contiguous parts that are run one after
+/// the other in child processes of this binary (same command line). The subject leaks memory
+/// (emap never drops its elements: about 1 KB per tree-merge case), so a long enumeration
+/// must hand its memory back now and then. Results are merged in index order.
+pub fn par_cases_sliced(total: usize, slices: usize, f: impl Fn(usize, &mut Acc) + Sync) -> Acc {
+    let range = |k: usize| (k * total / slices, (k + 1) * total / slices);
+    if let Ok(k) = std::env::var("VX_SLICE_K") {
+        // child: one slice, written to the file the parent named
+        let k: usize = k.parse().expect("VX_SLICE_K");
+        let (lo, hi) = range(k);
+        let acc = par_cases(hi - lo, |i, acc| f(lo + i, acc));
+        let out = std::env::var("VX_SLICE_OUT").expect("VX_SLICE_OUT");
+        std::fs::write(out, serde_json::to_string(&acc).expect("acc json")).expect("write slice result");
+        crate::real::remove_scratch_dir();
+        std::process::exit(0);
+    }
+    if slices <= 1 || crate::inflight::journal_mode() {
+        return par_cases(total, f);
+    }
+    let exe = std::env::current_exe().expect("current exe");
+    let args: Vec<String> = std::env::args().skip(1).collect();
+    let mut all = Acc::default();
+    for k in 0..slices {
+        let out = crate::real::scratch_dir().join(format!("slice-{k}.json"));
+        let status = std::process::Command::new(&exe).args(&args).env("VX_SLICE_K", k.to_string()).env("VX_SLICE_OUT", &out).status().expect("spawn slice");
+        if !status.success() {
+            // a crash, a hang or a harness panic in the child: end the same way, the driver takes over
+            crate::real::remove_scratch_dir();
+            let code = status.code().unwrap_or_else(|| 128 + std::os::unix::process::ExitStatusExt::signal(&status).unwrap_or(6));
+            std::process::exit(code);
+        }
+        let txt = std::fs::read_to_string(&out).expect("slice result");
+        let acc: Acc = serde_json::from_str(&txt).expect("slice result json");
+        all.merge(acc);
+        let _ = std::fs::remove_file(&out);
     }
     all
 }
